@@ -413,6 +413,18 @@ structure WF (f : Fld) (nx ny nz : Nat) : Prop where
   nv : 1 ≤ f.nvdim
   labels : 1 < f.nvdim → ∃ vs, f.vdims = some vs ∧ vs.length = f.nvdim ∧ LabelsOk vs
 
+/-- a point-data file as discretisedfield ≤ 0.61 wrote it: header lines, the three coordinate
+blocks (`N a` numbers `X a` each), further lines (`POINT_DATA`, per-component scalar blocks of
+vector files), the data marker (`VECTORS …`, or `SCALARS …` + `LOOKUP_TABLE …`), one line per
+point, anything after -/
+def legacyFile (pre mid post : List LLine) (N : Nat → Nat) (X : Nat → List Rat) (vec : Bool)
+    (rows : List (List Rat)) : List LLine :=
+  pre ++ ([.coords (N 0), .nums (X 0), .coords (N 1), .nums (X 1), .coords (N 2), .nums (X 2)] ++
+    (mid ++ ((if vec then [.vectors] else [.scalars, .alpha]) ++ (rows.map .nums ++ post))))
+
+/-- lines among which the legacy reader finds no coordinate header and no `VECTORS` line -/
+def Quiet (l : List LLine) : Prop := ∀ x ∈ l, (∀ c, x ≠ .coords c) ∧ x ≠ .vectors
+
 /-- the component arrays `to_vtk` adds -/
 def comps (f : Fld) : List VArr :=
   if 1 < f.nvdim then (f.vdims.getD []).map (compVArr f (f.vdims.getD [])) else []
